@@ -8,6 +8,7 @@ CONSTANTS
   MaxFeed = 6
   MaxEof = 4
   SlowSet = {"C"}
+  CfgWrite = FALSE
 CONSTRAINT Progress
 POSTCONDITION Post
 CHECK_DEADLOCK FALSE
